@@ -279,7 +279,9 @@ def _post_fit(call):
                     # like 1/ln delta): the simplex search doubles delta until its iteration limit and returns that
                     wn = w / np.sum(w)
                     e10, e1000 = ref_error(delta * 10, xs, wn), ref_error(delta * 1000, xs, wn)
-                    if e2 >= e0 >= e1 >= e10 >= e1000:
+                    # (monotone over a decade; three decades further the regression itself is ill-conditioned - P is nearly
+                    #  constant in i - so the far value only has to stay below the value at the returned delta)
+                    if e2 >= e0 >= e1 >= e10 and e1000 <= e0 * (1 + 1e-3):
                         mech2 = "ew-lsq-free-delta-runs-to-infinity"
             c.check("c13.delta-local-min", okmin, "EW least squares: free delta is not a local minimiser of the weighted quantile error", mech2, e_at=e0, e_up=e1, e_down=e2, **info)
         except Exception as e:  # noqa: BLE001
